@@ -154,6 +154,9 @@ func RunProgOn(im *Impl, pc *ProgCase) (results []StepResult, firstDiff int, inc
 							continue
 						}
 					}
+					if dd, ok := ref.Deref(d.Args[0]).(*ref.Cmp); ok && dd.F == "discontiguous" && len(dd.Args) == 1 {
+						continue // the reference database does not care where the clauses of a predicate stand
+					}
 					refFailed = "directive not supported by this runner"
 					continue
 				}
